@@ -461,7 +461,7 @@ func (vc *VC) typeFacts(term string, t types.Type, alloc string) []string {
 	}
 	switch u := t.Underlying().(type) {
 	case *types.Slice:
-		out = append(out, "(>= (slen "+term+") 0)", "(>= (soff "+term+") 0)", "(>= (sref "+term+") 0)", "(=> (= (sref "+term+") 0) (= (slen "+term+") 0))")
+		out = append(out, "(>= (slen "+term+") 0)", "(<= (slen "+term+") 9223372036854775807)", "(>= (soff "+term+") 0)", "(>= (sref "+term+") 0)", "(=> (= (sref "+term+") 0) (= (slen "+term+") 0))")
 		if alloc != "" {
 			out = append(out, "(<= (sref "+term+") "+alloc+")")
 		}
@@ -495,7 +495,9 @@ const prelude = `(declare-datatype MInt ((mkMInt (mi!nil Bool) (mi!val Int))))
 (define-fun tmod ((a Int) (b Int)) Int (- a (* b (tdiv a b))))
 (declare-fun mulI (Int Int) Int)
 (declare-fun gid (Int) Int)
-(declare-fun bytes2str ((Array Int Int) Int) String)
+(declare-sort BytesV 0)
+(declare-fun bytesval ((Array Int Int) Int Int) BytesV)
+(declare-fun bytes2str (BytesV) String)
 (declare-fun str2bytes (String) (Array Int Int))
 `
 
@@ -505,6 +507,9 @@ func (vc *VC) queryFor(o *Obligation) string {
 	b.WriteString(prelude)
 	b.WriteString(vc.eng.types.declarations())
 	for _, l := range vc.eng.specs.preamble {
+		if !vc.eng.types.sortsKnown(l) {
+			continue // mentions a struct sort that does not occur in this verification
+		}
 		b.WriteString(l)
 		b.WriteByte('\n')
 	}
